@@ -14,6 +14,7 @@ import json
 import multiprocessing
 import os
 import random
+import shutil
 import subprocess
 import sys
 import time
@@ -389,10 +390,11 @@ def write_replay(prop, plan, v, digest, history=()):
         v = _V(v)
     rdir = os.environ.get('VERIF_REPLAY_DIR') or os.path.join(VERIF, 'replays')
     os.makedirs(rdir, exist_ok=True)
-    name = '%s-%s-%s.json' % (prop, v.clause.split('.', 1)[1].replace('/', '_'), plan.get('seed'))
+    name = '%s-%s-%s%s.json' % (prop, v.clause.split('.', 1)[1].replace('/', '_'), plan.get('seed'), '-pyO' if sys.flags.optimize else '')
     path = os.path.join(rdir, name)
     doc = {'property': prop, 'clause': v.clause, 'message': v.message, 'detail': v.detail, 'engine': plan.get('engine'),
            'plan': plan, 'history': list(history), 'trace_digest': digest, 'repo': repo_state(), 'python': sys.version.split()[0],
+           'python_optimize': int(sys.flags.optimize),
            'note': 'history = plans that must be executed first in the same process (empty unless the library under test keeps hidden process-global state)'}
     with open(path, 'w') as f:
         json.dump(doc, f, indent=1, sort_keys=True, default=str)
@@ -417,6 +419,7 @@ def replay_file(path, quiet=False):
 def replay_in_fresh_interpreter(path):
     env = dict(os.environ)
     env['PYTHONHASHSEED'] = '12345'
+    env.pop('VERIF_PYOPT', None)          # the replay file itself says which interpreter mode it needs
     r = subprocess.run([sys.executable, os.path.join(VERIF, 'vf'), 'replay', path, '--quiet'], capture_output=True, text=True,
                        env=env, timeout=600, cwd=VERIF)
     return r.returncode == 1 and 'VIOLATION' in r.stdout, r
@@ -441,7 +444,7 @@ def run_check(prop, tier, base_seed=None, budget_s=None, workers=None, runs=None
     print('check %s tier=%s engine=%s base_seed=%d runs<=%d budget=%.0fs workers=%d repo=%s' %
           (prop, tier, engine.name, base_seed, runs, budget_s, workers, os.environ.get('VERIF_REPO', '/repo')), flush=True)
     deadline = t0 + budget_s
-    nsys = len(engine.systematic(prop, tier))
+    nsys = 0 if os.environ.get('VERIF_SKIP_SYSTEMATIC') == '1' else len(engine.systematic(prop, tier))
     chunk = max(1, min(250, runs // (workers * 4) or 1))
     agg = {'runs': 0, 'stats': Counter(), 'shapes': set(), 'nontrivial_shapes': set(), 'carried': 0, 'sim_seconds': 0.0, 'capped': 0,
            'violations': [], 'known_hits': Counter(), 'samples': [], 'determinism_checked': 0, 'steps': 0, 'other_prop': Counter(),
@@ -555,6 +558,37 @@ def run_check(prop, tier, base_seed=None, budget_s=None, workers=None, runs=None
     # A violation seen once that cannot be produced again is a harness error - unless another violation of
     # the same check did reproduce: then the verdict stands on that one and this is only noted (a library
     # that keys behaviour on memory layout produces both kinds in one batch).
+    # ---- second pass: the same check in an interpreter started with -O (assertions stripped, __debug__
+    # False) - a production configuration in which `assert` statements of the library silently vanish
+    opt_lines = []
+    opt_rc = 0
+    if os.environ.get('VERIF_PYOPT') != '1' and not sys.flags.optimize and os.environ.get('VERIF_NO_PYOPT') != '1':
+        import tempfile
+        tmpd = tempfile.mkdtemp(prefix='vf-pyopt-', dir='/var/tmp')
+        env = dict(os.environ)
+        env.update(VERIF_PYOPT='1', VERIF_EVIDENCE_DIR=tmpd, VERIF_SEED=str(base_seed), VERIF_TIER=tier,
+                   VERIF_BUDGET_S=str(max(8.0, budget_s / 5.0)), VERIF_RUNS=str(max(50, runs // 8)))
+        if nsys > 2000:
+            env['VERIF_SKIP_SYSTEMATIC'] = '1'
+        try:
+            pr = subprocess.run([sys.executable, os.path.join(VERIF, 'vf'), 'check', prop, '--tier', tier], capture_output=True, text=True, env=env,
+                                cwd=VERIF, timeout=max(600.0, budget_s))
+            opt_rc = pr.returncode
+            for line in pr.stdout.splitlines():
+                if line.startswith(('violated clause', 'VIOLATION ', 'NOTE ')):
+                    opt_lines.append(line)
+            try:
+                with open(os.path.join(tmpd, '%s.json' % prop)) as f:
+                    oe = json.load(f)
+                agg['pyopt'] = {'runs': oe['coverage']['runs'], 'violated_clauses': oe['coverage'].get('violated_clauses', []), 'exit': opt_rc}
+            except (OSError, ValueError, KeyError):
+                agg['pyopt'] = {'runs': 0, 'exit': opt_rc}
+            if opt_rc not in (0, 1):
+                harness_errors.append('second pass under python -O failed (rc=%s): %s' % (opt_rc, (pr.stderr or pr.stdout)[-400:]))
+        except subprocess.TimeoutExpired:
+            harness_errors.append('second pass under python -O timed out')
+        finally:
+            shutil.rmtree(tmpd, ignore_errors=True)
     if unreproduced and not reported:
         harness_errors.extend(unreproduced)
     if agg.get('nondeterministic') and not reported:
@@ -568,6 +602,8 @@ def run_check(prop, tier, base_seed=None, budget_s=None, workers=None, runs=None
     for cl, msg, path, nsteps, nhist in reported:
         print('violated clause %s: %s (minimised to %d steps%s)' % (cl, msg, nsteps, ', needs %d earlier run(s) in the same process: the library keeps hidden global state' % nhist if nhist else ''))
         print('VIOLATION property=%s replay=%s' % (prop, path))
+    for line in opt_lines:
+        print(line if not line.startswith('violated clause') else line + ' [interpreter started with -O]')
     if reported:
         for u in unreproduced:
             print('NOTE (not part of the verdict): %s' % u)
@@ -581,7 +617,7 @@ def run_check(prop, tier, base_seed=None, budget_s=None, workers=None, runs=None
     if agg['runs'] == 0:
         print('HARNESS-ERROR no runs executed', file=sys.stderr)
         return 2
-    return 1 if reported else 0
+    return 1 if (reported or opt_rc == 1) else 0
 
 
 def write_evidence(prop, tier, base_seed, engine, agg, reported, harness_errors, wall, known):
@@ -619,6 +655,7 @@ def write_evidence(prop, tier, base_seed, engine, agg, reported, harness_errors,
         'violated_clauses': [{'clause': c, 'message': m, 'replay': p} for c, m, p, _, _h in reported],
         'history_dependent_executions': int(agg.get('history_dependent', 0)),
         'nondeterministic_reexecutions': int(agg.get('nondeterministic', 0)),
+        'second_pass_under_python_O': agg.get('pyopt', {'runs': 0, 'note': 'this IS the -O pass' if sys.flags.optimize else 'disabled'}),
         'harness_errors': harness_errors,
         'other_property_clause_hits_ignored': dict(agg['other_prop']),
         'exhaustive': False,
